@@ -247,8 +247,8 @@ def run(tier, seed, factor=1):
                 "any of the three databases, some reloaded from JSON; every pair in both orders, every specification against itself; every "
                 "constructed bijection (and its JSON reload) by brute force on all objects up to size N; Python's verdict vs the Lean isoRef; "
                 "non-trivial = a pair of specifications; distinct by (seed)")
-    N = common.scale(tier, 6, 8)
-    jobs = [(seed * 7877 + i, common.scale(tier, 3, 8), N) for i in range(common.scale(tier, 48, 400) * factor)]
+    N = common.scale(tier, 6, 7)
+    jobs = [(seed * 7877 + i, common.scale(tier, 3, 6), N) for i in range(common.scale(tier, 48, 240) * factor)]
     outs = specrun.pool_map(worker, jobs)
     specrun.quiet()
     lines = [l for o in outs for l in o["lines"]]
